@@ -623,3 +623,78 @@ func panicSig(ex *Exec) string {
 	}
 	return "evm-panic:" + ex.PanicAt + ":" + strings.ReplaceAll(kind, " ", "-")
 }
+
+// OracleC20Origin: the origin side of a Quai->Qi conversion. Every conversion ETX a transaction returns
+// must be backed by exactly one successful, non-reverted conversion operation that debited its origin
+// account the stated amount: the converted amount leaves the origin ledger exactly once, never zero times.
+func OracleC20Origin(ex *Exec) *Obs {
+	o := &Obs{}
+	if ex.Panic != nil || ex.HardErr != nil || ex.Res == nil {
+		return o
+	}
+	reg := regimeName(ex.Case.PTN)
+	carried, n := new(big.Int), 0
+	for _, etx := range ex.Res.Etxs {
+		if etx.EtxType() == types.ConversionType {
+			if etx.Value().BitLen() > 255 && ex.Case.PTN < params.SelfDestructRefundForkBlock {
+				continue // the pre-fork 256-bit wrap-around of opConvert / opETX is a listed C05 / C02 finding
+			}
+			carried.Add(carried, etx.Value())
+			n++
+		}
+	}
+	failed := ex.Res.Err != nil
+	if failed && ex.Res.Err != vm.ErrCodeStoreOutOfGas { // (that call site is a listed C05 / C02 finding)
+		if n > 0 {
+			o.bad("failed-transaction-returns-conversion", "transaction failed (%v) but returns %d conversion ETXs carrying %s", ex.Res.Err, n, carried)
+		}
+		return o
+	}
+	backed, ops := new(big.Int), 0
+	for _, r := range ex.T.Ops {
+		k := kindOf(ex, r)
+		if k != "CONVERT" && k != "ETX" && k != "CALL-EXT" {
+			continue
+		}
+		if !r.Done || !r.status() || r.NewEtx == nil || r.NewEtx.EtxType() != types.ConversionType || ex.P.RevertedAt(r.Seq) {
+			continue
+		}
+		debit := new(big.Int).Sub(r.BalBefore, r.BalAfter)
+		if debit.Cmp(r.NewEtx.Value()) < 0 {
+			if v := r.NewEtx.Value(); v.BitLen() > 255 && ex.Case.PTN < params.SelfDestructRefundForkBlock {
+				continue // the pre-fork 256-bit wrap-around of opConvert is a listed C05 / C02 finding
+			}
+			o.bad("conversion-debits-less-than-it-converts:"+k, "%s converted %s, the origin account was debited %s", k, r.NewEtx.Value(), debit)
+			continue
+		}
+		backed.Add(backed, r.NewEtx.Value())
+		ops++
+	}
+	// a top-level transfer to a Qi address of this zone is a conversion at depth 0
+	if ex.Case.to != nil && !failed {
+		if _, err := ex.Case.to.InternalAndQiAddress(); err == nil && n > 0 {
+			if ex.Case.InboundETX {
+				// an inbound cross-chain transfer to a Qi address: the conversion is funded by the inbound value itself
+				backed.Add(backed, ex.Case.value)
+				ops++
+			} else if ex.After[Sender.Bytes20()] != nil {
+				loss := new(big.Int).Sub(ex.PayerBefore, ex.After[Sender.Bytes20()])
+				gas := new(big.Int).Mul(new(big.Int).SetUint64(ex.Res.UsedGas), ex.Case.price)
+				if new(big.Int).Sub(loss, gas).Cmp(ex.Case.value) == 0 {
+					backed.Add(backed, ex.Case.value)
+					ops++
+				}
+			}
+		}
+	}
+	if carried.Cmp(backed) > 0 {
+		o.bad("conversion-leaves-zone-without-origin-debit", "the transaction returns %d conversion ETXs carrying %s; successful, non-reverted conversion operations debited their origin %s (%d operations)", n, carried, backed, ops)
+	}
+	if n > 0 {
+		o.class("conversion-emitted:origin-debit-checked:" + reg)
+		if ex.P.Reverts > 0 {
+			o.class("conversion-emitted:transaction-with-reverted-frames")
+		}
+	}
+	return o
+}
